@@ -638,6 +638,53 @@ theorem inline_chunk_indep (hk : Byte → Bool) (ops : Option Ops) (s : Sig) (c 
   unfold inlinePre inlineBody
   simp [hashedText_eq_canon, h]
 
+/-! ### messages with several signatures: one hashing mode per signature -/
+
+/-- **the hashing mode is per signature**: in a message with any number of signatures (prefixed,
+one-pass, mixed), the digest input of signature `i` is its own salt, the literal body in the mode
+of ITS OWN type (`canon` of the body iff the signature is a text signature, the body itself
+otherwise) and its own hashed fields and trailer; hash algorithm its own -/
+theorem inline_mode_is_per_signature (hk : Byte → Bool) (sigs : List MsgSig) (chunks : List Bytes)
+    (slots : List (Option (Byte × Bytes))) (h : inlineSlotsPre hk sigs chunks = .ok slots)
+    (i : Nat) (m : MsgSig) (a : Byte) (p : Bytes) (hm : sigs[i]? = some m) (hx : slots[i]? = some (some (a, p))) :
+    a = m.sig.cfg.hash ∧ ∃ ft, fieldsAndTrailer m.sig.cfg = some ft ∧
+      p = saltBytes m.sig.cfg ++ (if m.sig.cfg.typ = typText then canon chunks.flatten else chunks.flatten) ++ ft := by
+  have hp := inlineSlotsPre_get hk sigs chunks slots h i m _ hm hx
+  obtain ⟨ha, _, _, _, ft, hft, hpe⟩ := inlinePre_some hk m.ops m.sig chunks a p hp
+  refine ⟨ha, ft, hft, ?_⟩
+  rw [hpe]
+  by_cases ht : m.sig.cfg.typ = typText
+  · simp [inlineBody, ht, hashedText_eq_canon]
+  · have : (m.sig.cfg.typ == typText) = false := by simpa using ht
+    simp [inlineBody, ht, this]
+
+/-- … and it does not depend on the other signatures of the message: two messages that carry the same
+signature (with the same header) at position `i` give it the same slot -/
+theorem inline_slot_indep_of_other_signatures (hk : Byte → Bool) (sigs sigs' : List MsgSig) (chunks : List Bytes)
+    (slots slots' : List (Option (Byte × Bytes)))
+    (h : inlineSlotsPre hk sigs chunks = .ok slots) (h' : inlineSlotsPre hk sigs' chunks = .ok slots')
+    (i : Nat) (m : MsgSig) (hm : sigs[i]? = some m) (hm' : sigs'[i]? = some m)
+    (x x' : Option (Byte × Bytes)) (hx : slots[i]? = some x) (hx' : slots'[i]? = some x') : x = x' := by
+  have a := inlineSlotsPre_get hk sigs chunks slots h i m x hm hx
+  have b := inlineSlotsPre_get hk sigs' chunks slots' h' i m x' hm' hx'
+  rw [a] at b
+  cases b
+  rfl
+
+/-- `verify_nested_explicit(i, key)` on a message with several signatures: success means signature `i`
+was honestly made, by this key material, over the literal body (canonical form iff signature `i`
+is a text signature) with its hashed fields -/
+theorem verify_sound_message_at (P : Prims) (L : List (Bytes × Bytes)) (S : List Signed) (k : VKey)
+    (sigs : List MsgSig) (chunks : List Bytes) (i : Nat)
+    (hU : Unforgeable P L) (hH : LogHonest P L S) (hS : HonestInputs S)
+    (hv : ∀ m, sigs[i]? = some m → m.sig.cfg.ver ≠ .v3)
+    (hC : ∀ h p, CollisionFreeOn P S h p)
+    (h : verifyMessageAt P k sigs chunks i = .ok) :
+    ∃ m, sigs[i]? = some m ∧ ∃ e ∈ S, e.km = k.mat ∧
+      e.input = m.sig.cfg.toInput (.document (docRep m.sig.cfg.typ chunks.flatten)) := by
+  obtain ⟨m, hm, hok⟩ := verifyMessageAt_ok P k sigs chunks i h
+  exact ⟨m, hm, verifyMessage_sound P L S k m.ops m.sig chunks hU hH hS (hv m hm) (fun _ p _ => hC _ p) hok⟩
+
 /-! ### certificates -/
 
 /-- **back-signature required**: a binding signature whose hashed key flags say "signing" passes
